@@ -141,6 +141,28 @@ def run_history(pool, ops, coder_caches, table_limit):
             got = ('ok', o.value.serialized_bytes) if o.ok else ('error', o.exc_type)
             if got != want:
                 return div('encode', got if not o.ok else 'other bytes (%d)' % len(got[1]), want if want[0] != 'ok' else 'bytes (%d)' % len(want[1]))
+        elif kind == 'scan':
+            # one scanner call over: the longest message of the pool, this message with its section 1 length zeroed (the
+            # header cannot be decoded; total length intact), this message -- with continue-on-error and a filter that
+            # holds for every message.  What follows the failed message is delivered whatever was handled before it.
+            import contextlib
+            import io
+            goods = [q for q in pool if q['flat'] is not None and q['baseline']['decode'][0] == 'ok']
+            if base['decode'][0] != 'ok' or p['flat'] is None or b'BUFR' in p['bytes'][4:] or not goods:
+                continue
+            longest = max(goods, key=lambda q: len(q['bytes']))['bytes']
+            broken = p['bytes'][:8] + b'\x00\x00\x00' + p['bytes'][11:]
+            stream = longest + b'\r\r\n' + broken + b'\r\r\n' + p['bytes']
+            with contextlib.redirect_stderr(io.StringIO()):
+                o = sut.call(lambda: [m.serialized_bytes for m in sut.generate_bufr_message(
+                    decs[j], stream, continue_on_error=True, filter_expr='${%edition} > 0')])
+            want = [longest, p['bytes']]
+            if not o.ok:
+                return div('scan with a filter and continue-on-error over (longest message, message with a broken header, message)',
+                           '%s: %s @%s' % (o.exc_type, o.msg, o.frame), 'two messages')
+            if o.value != want and b'BUFR' not in longest[4:]:
+                return div('scan with a filter and continue-on-error over (longest message, message with a broken header, message)',
+                           [len(x) for x in o.value], [len(x) for x in want])
         elif kind == 'badquery':
             m = kept.get(i) or next(iter(kept.values()), None)
             if m is not None:
@@ -346,7 +368,7 @@ def gen_hist(ch, opts, real_limit=False):
             kind = ch.choice(['fail', 'fail', 'info', 'lenient'])
         else:
             kind = ch.weighted([(6, 'decode'), (2, 'encode'), (1, 'info'), (1, 'render'), (1, 'rewire'), (2, 'query'), (1, 'subset'),
-                                (1, 'badquery'), (1, 'lenient')])
+                                (1, 'badquery'), (1, 'lenient'), (1, 'scan')])
         if kind == 'badquery':
             ops.append((kind, ch.int(0, len(BAD_QUERIES) - 1), i))
             if ch.bool(2, 3):
@@ -406,6 +428,8 @@ def classify(hc):
             seen_groups.append(g)
         if kind == 'badquery':
             classes.add('failed_query')
+        if kind == 'scan':
+            classes.add('scan_over_a_message_with_a_broken_header')
         if kind == 'lenient':
             classes.add('lenient_decode')
             if any(kk == 'fail' and jj == j and x >= n_cases and hc.damaged[x - n_cases][1] is None for (kk, jj, x) in hc.ops[step + 1:]):
